@@ -133,6 +133,8 @@ class Ctx:
         self.counters["violated"] += 1
         rec = {"property": self.prop, "kind": kind, "alg": alg, "case": plain(case), "witness": plain(witness)}
         rec["hashseed"] = int(os.environ.get("PYTHONHASHSEED", "0") or 0)
+        if OBJ_STATE["last_fresh"]:
+            rec["objective_not_the_singleton"] = True
         if getattr(self, "debug_logging", False):
             rec["debug_logging"] = True       # the shard ran with DEBUG logging on (rv/worker.py); the replay switches it on again
         # every violation is classified here, so that capping the recorded ones per class can never hide a new one
@@ -364,13 +366,22 @@ class Algos:
 
     def objective(self, name, kparam=None, weights=None):
         o = self.obj
-        if name == "maxmin": return o.MaximizeSmallestSum
-        if name == "minmax": return o.MinimizeLargestSum
-        if name == "diff": return o.MinimizeDifference
+        if name in ("maxmin", "minmax", "diff"):
+            # the library offers these three as module-level instances; every third request gets an EQUAL BUT NOT IDENTICAL instance instead (a deep copy - what a pickle
+            # round trip, a multiprocessing worker or `obj.MinimizeTheDifference()` gives the user): code that recognises objectives by identity must still be right for them.
+            # The choice is stored in every violation record (Ctx.violation) and restored on replay (OBJ_STATE["force"]).
+            single = {"maxmin": o.MaximizeSmallestSum, "minmax": o.MinimizeLargestSum, "diff": o.MinimizeDifference}[name]
+            OBJ_STATE["calls"] += 1
+            fresh = OBJ_STATE["force"] if OBJ_STATE["force"] is not None else (OBJ_STATE["calls"] % 3 == 0)
+            OBJ_STATE["last_fresh"] = bool(fresh)
+            return copy.deepcopy(single) if fresh else single
         if name == "ksmall": return o.MaximizeKSmallestSums(kparam)
         if name == "klarge": return o.MinimizeKLargestSums(kparam)
         if name == "wmaxmin": return o.MaximizeSmallestWeightedSum(weights)
         raise KeyError(name)
+
+
+OBJ_STATE = {"calls": 0, "last_fresh": False, "force": None}
 
 
 CG_SWITCHES = ("use_lower_bound", "use_fast_lower_bound", "use_heuristic_3", "use_set_of_seen_states")
